@@ -1,0 +1,76 @@
+//go:build verif
+
+/*
+ Licensed to the Apache Software Foundation (ASF) under one
+ or more contributor license agreements.  See the NOTICE file
+ distributed with this work for additional information
+ regarding copyright ownership.  The ASF licenses this file
+ to you under the Apache License, Version 2.0 (the
+ "License"); you may not use this file except in compliance
+ with the License.  You may obtain a copy of the License at
+
+     http://www.apache.org/licenses/LICENSE-2.0
+
+ Unless required by applicable law or agreed to in writing, software
+ distributed under the License is distributed on an "AS IS" BASIS,
+ WITHOUT WARRANTIES OR CONDITIONS OF ANY KIND, either express or implied.
+ See the License for the specific language governing permissions and
+ limitations under the License.
+*/
+
+package locking
+
+import (
+	"sync"
+	"unsafe"
+)
+
+// verifGetg returns the runtime's g pointer of the calling goroutine (locking_verif_goid_amd64.s).
+func verifGetg() unsafe.Pointer
+
+var (
+	verifGoidOnce   sync.Once
+	verifGoidOffset = -1
+)
+
+// verifGoidProbe finds the offset of the goroutine id inside the runtime's g structure by comparing,
+// on several goroutines, the id printed by runtime.Stack with the words of g. No offset is assumed:
+// when no single word matches on all probes the slow method stays in use.
+func verifGoidProbe() {
+	type probe struct {
+		g  unsafe.Pointer
+		id int64
+	}
+	const n = 6
+	probes := make([]probe, n)
+	var wg sync.WaitGroup
+	for i := 0; i < n; i++ {
+		wg.Add(1)
+		go func(i int) {
+			defer wg.Done()
+			probes[i] = probe{g: verifGetg(), id: verifGoidSlow()}
+		}(i)
+	}
+	wg.Wait()
+	for off := 0; off < 512; off += 8 {
+		ok := true
+		for _, p := range probes {
+			if p.g == nil || p.id == 0 || *(*int64)(unsafe.Add(p.g, off)) != p.id {
+				ok = false
+				break
+			}
+		}
+		if ok {
+			verifGoidOffset = off
+			return
+		}
+	}
+}
+
+func verifGoid() int64 {
+	verifGoidOnce.Do(verifGoidProbe)
+	if verifGoidOffset < 0 {
+		return verifGoidSlow()
+	}
+	return *(*int64)(unsafe.Add(verifGetg(), verifGoidOffset))
+}
